@@ -23,50 +23,17 @@ import (
 	"github.com/drand/drand/v2/internal/chain/boltdb"
 	"github.com/drand/drand/v2/internal/dkg"
 	dfs "github.com/drand/drand/v2/internal/fs"
-	"github.com/drand/kyber"
-	"github.com/drand/kyber/share"
-	kdkg "github.com/drand/kyber/share/dkg"
+	"github.com/drand/drand/v2/zzverif/engkeys"
 )
 
-// rngStream adapts math/rand to the cipher.Stream kyber picks scalars from, so that every
-// random choice of the engine derives from the seed.
-type rngStream struct{ r *rand.Rand }
+var (
+	newPair = engkeys.NewPair
+	deal    = engkeys.Deal
+	mkGroup = engkeys.MkGroup
+)
 
-func (s rngStream) XORKeyStream(dst, src []byte) {
-	for i := range src {
-		dst[i] = src[i] ^ byte(s.r.Intn(256))
-	}
-}
-
-func newPair(rng *rand.Rand, addr string, sch *crypto.Scheme) (*key.Pair, error) {
-	k := sch.KeyGroup.Scalar().Pick(rngStream{rng})
-	p := &key.Pair{Key: k, Public: &key.Identity{Key: sch.KeyGroup.Point().Mul(k, nil), Addr: addr, Scheme: sch}}
-	return p, p.SelfSign()
-}
-
-// deal makes a fresh (thr, n) sharing of a random secret: what a completed DKG hands each node.
-func deal(rng *rand.Rand, sch *crypto.Scheme, secret kyber.Scalar, n, thr int) ([]*key.Share, []kyber.Point) {
-	pri := share.NewPriPoly(sch.KeyGroup, thr, secret, rngStream{rng})
-	pub := pri.Commit(sch.KeyGroup.Point().Base())
-	_, commits := pub.Info()
-	shares := pri.Shares(n)
-	out := make([]*key.Share, n)
-	for i := 0; i < n; i++ {
-		out[i] = &key.Share{DistKeyShare: kdkg.DistKeyShare{Share: shares[i], Commits: commits}, Scheme: sch}
-	}
-	return out, commits
-}
-
-func mkGroup(sch *crypto.Scheme, pairs []*key.Pair, commits []kyber.Point, thr int, genesis int64, period time.Duration, id string) *key.Group {
-	nodes := make([]*key.Node, len(pairs))
-	for i, p := range pairs {
-		nodes[i] = &key.Node{Index: uint32(i), Identity: p.Public}
-	}
-	g := key.LoadGroup(nodes, genesis, &key.DistPublic{Coefficients: commits}, period, 0, sch, id)
-	g.Threshold = thr
-	g.GenesisSeed = g.Hash()
-	return g
-}
+type rngStream = engkeys.RngStream
+type logSink = engkeys.LogSink
 
 type fileObs struct {
 	Path      string `json:"path"`
@@ -110,7 +77,7 @@ func childModes() error {
 			return err
 		}
 	}
-	shares, commits := deal(rng, sch, sch.KeyGroup.Scalar().Pick(rngStream{rng}), 3, 2)
+	shares, commits := deal(rng, sch, sch.KeyGroup.Scalar().Pick(rngStream{R: rng}), 3, 2)
 	group := mkGroup(sch, pairs, commits, 2, 1700000000, 3*time.Second, beaconID)
 	kb, _ := pairs[0].Key.MarshalBinary()
 	sb, _ := shares[0].Share.V.MarshalBinary()
